@@ -14,6 +14,9 @@ REPO = os.environ.get("GAMA_REPO", "/repo")
 COQ = os.path.join(VERIF, "coq")
 CACHE = os.environ.get("GAMA_VERIF_CACHE", "/var/tmp/gama-verif-cache")
 GUARD = "GAMA_VERIF"
+# memory leaks are not part of any property (MemRep::operator= is known to leak): report only invalid accesses
+os.environ.setdefault("ASAN_OPTIONS", "detect_leaks=0")
+os.environ.setdefault("UBSAN_OPTIONS", "print_stacktrace=1:halt_on_error=1")
 NCPU = os.cpu_count() or 4
 
 AXIOM_WHITELIST_PREFIXES = (
